@@ -74,7 +74,11 @@ class pcomp(object):
         These are the coefficients of `derived`.
         Basically, they are a re-scaling of the eigenvectors.
         """
-        return self._evecs * np.tile(np.sqrt(self._evals), self._nv).reshape(
+        #
+        # A rank-deficient matrix (no more observations than variables) has
+        # eigenvalues that are zero up to round-off, possibly -1e-16.
+        #
+        return self._evecs * np.tile(np.sqrt(np.maximum(self._evals, 0)), self._nv).reshape(
             self._nv, self._nv)
 
     @lazyproperty
